@@ -217,4 +217,31 @@ Proof.
       now rewrite swapbits_invol.
     + rewrite (get_map_Nrange O) by assumption. cbn [op_spec hd0 snd0]. unfold embed_swap. now rewrite Ec.
 Qed.
+(* the dagger of a circuit: the documented inverses, in reverse order, on the same qubits *)
+Inductive inverse_list : list (opgate (T:=T)) -> list (opgate (T:=T)) -> Prop :=
+| il_nil : inverse_list [] []
+| il_cons g g' ts cs r r' : inverse_of g g' -> inverse_list r r' ->
+    inverse_list ((g, ts, cs) :: r) (r' ++ [(g', ts, cs)]).
+
+Lemma run_ops_app4 par (gs hs : list (opgate (T:=T))) : forall st,
+  run_ops O par (gs ++ hs) st = bind (run_ops O par gs st) (run_ops O par hs).
+Proof. induction gs as [|[[g ts] cs] r IH]; intros st; cbn [app run_ops bind]; [reflexivity|]. destruct (apply_op O par g st ts cs); cbn [bind]; auto. Qed.
+
+(* a circuit of any length followed by its dagger returns every input vector unchanged *)
+Theorem circuit_dagger_cancels par n gs gs' : inverse_list gs gs' ->
+  Forall (fun gt : opgate (T:=T) => let '(g, ts, cs) := gt in args_valid g n ts cs = true) gs ->
+  forall v : list C, length v = N.to_nat (2^n) ->
+  run_ops O par (gs ++ gs') (mkState n v) = Ok (mkState n v).
+Proof.
+  intros Hil. induction Hil as [|g g' ts cs r r' Hi Hil IH]; intros Hv v Hl; [reflexivity|].
+  inversion Hv as [|? ? Hg Hr]; subst.
+  pose proof (inverse_pair_cancels par g g' n ts cs v Hi Hg Hl) as P.
+  cbn [run_ops] in P. cbn [app run_ops].
+  rewrite (apply_op_spec O Tring) in P |- * by assumption. cbn [bind] in P |- *.
+  rewrite app_assoc, run_ops_app4, (IH Hr) by auto using spec_vec_length. cbn [bind run_ops].
+  exact P.
+Qed.
+
+Lemma inverse_list_length gs gs' : inverse_list gs gs' -> length gs' = length gs.
+Proof. induction 1 as [|g g' ts cs r r' _ _ IH]; [reflexivity|]. rewrite app_length, IH. simpl. lia. Qed.
 End C04.
